@@ -105,6 +105,10 @@ def run_shard(ctx):
             ctx.count("stopped_on_time_budget")
             break
         one_case(ctx, ctx.shard * 100000 + k)
+    # the criteria themselves under the declared quality encoding (--quality-base 33/64): definition-based, shared with C14
+    from . import c14
+    for k in range(ctx.scale(10, 150)):
+        c14.cli_case(ctx, ctx.shard * 100000 + 50000 + k)
 
 
 def verdict_hook(merged, tier):
@@ -116,4 +120,8 @@ def verdict_hook(merged, tier):
 
 def replay(ctx, case):
     ctx.shard = case["k"] // 100000
+    if case.get("kind") == "cli":
+        from . import c14
+        c14.cli_case(ctx, case["k"])
+        return
     one_case(ctx, case["k"])
